@@ -175,13 +175,94 @@ CUM = (0, 31, 59, 90, 120, 151, 181, 212, 243, 273, 304, 334)
 MAXORD = 3652059
 
 
+_YT = None      # active YearTable (see below) or None
+
+
 def is_leap(y):
+    if _YT is not None:
+        k = _YT.locate(y)
+        if k is not None:
+            return _YT.leap[k]
     return or_(and_(eq(mod(y, 4), 0), not_(eq(mod(y, 100), 0))), eq(mod(y, 400), 0))
 
 
 def days_before_year(y):
+    if _YT is not None:
+        k = _YT.locate(y)
+        if k is not None:
+            return _YT.jan1[k] - 1
     p = sub(y, 1)
     return add(mulc(p, 365), div(p, 4), mulc(div(p, 100), -1), div(p, 400))
+
+
+class YearTable(object):
+    """Year-relative calendar for one path whose calendar class is already pinned.
+
+    After a harness has split on the class of the years y+lo .. y+hi (leap flags concrete, weekday of 1 January
+    concrete), every calendar quantity of those years is `ordinal of 1 Jan of year y` plus a CONCRETE number.
+    The table introduces that ordinal as a fresh solver variable J0 (constrained only by J0 % 7 and a range) and
+    answers days_before_year / is_leap for any term that is provably y + k.  The solver then only ever sees
+    linear arithmetic over J0: no floor-division-by-4/100/400, no mod 7 of a year polynomial.  J0 is MORE general
+    than the true ordinal of any particular year of the class (which satisfies the same relations by the
+    year-step lemma), so everything proved holds for every year of the class; a counterexample is replayed
+    natively with a concrete year before it is reported."""
+
+    def __init__(self, ctx, y, lo, hi, leap_of, jan1_weekday):
+        from crosshair.statespace import context_statespace
+        self.ctx, self.y, self.lo, self.hi = ctx, y, lo, hi
+        self.leap = {k: bool(leap_of[k]) for k in range(lo, hi + 1)}
+        with _nt():
+            space = context_statespace()
+            j0 = _wrap_int(z3.Int("jan1ord" + space.uniq()))
+            space.add(z3.And(j0.var >= 800, j0.var <= MAXORD - 366 * (hi + 3)))
+            space.add(j0.var % 7 == (jan1_weekday + 1) % 7)
+        self.jan1 = {0: j0}
+        acc = 0
+        for k in range(0, hi):
+            acc += 365 + (1 if self.leap[k] else 0)
+            self.jan1[k + 1] = add(j0, acc)
+        acc = 0
+        for k in range(-1, lo - 1, -1):
+            acc -= 365 + (1 if self.leap[k] else 0)
+            self.jan1[k] = add(j0, acc)
+        self._cache = {}
+
+    def locate(self, e):
+        if not _is_sym(e):
+            return None
+        if e is self.y:
+            return 0
+        key = id(e)
+        hit = self._cache.get(key)
+        if hit is not None and hit[0] is e:
+            return hit[1]
+        from crosshair.statespace import context_statespace
+        with _nt():
+            space = context_statespace()
+            diff = e.var - self.y.var
+            if space.solver.check() != z3.sat:
+                return None
+            kk = space.solver.model().evaluate(diff, model_completion=True)
+            k = kk.as_long() if z3.is_int_value(kk) else None
+            if k is None or not (self.lo <= k <= self.hi):
+                res = None
+            elif space.solver.check(diff != k) == z3.unsat:       # e == y + k on every model of this path
+                res = k
+            else:
+                res = None
+        self._cache[key] = (e, res)
+        return res
+
+    def __enter__(self):
+        global _YT
+        self._old = _YT
+        _YT = self
+        return self
+
+    def __exit__(self, *a):
+        global _YT
+        _YT = self._old
+        return False
 
 
 def days_in_month(y, m):
